@@ -89,6 +89,7 @@ func (t *vsTimer) Stop() bool {
 type vsClock struct {
 	now    time.Time
 	timers []*vsTimer
+	rig    *vsRig
 }
 
 func (c *vsClock) Now() time.Time {
@@ -102,6 +103,9 @@ func (c *vsClock) NewContextWithTimeout(parent context.Context, timeout time.Dur
 
 func (c *vsClock) NewTimer(d time.Duration) (clock.Timer, <-chan time.Time) {
 	rt.Sync()
+	if c.rig != nil {
+		c.rig.completing = nil // the completion (if any) has been processed: the call is about to block
+	}
 	t := &vsTimer{deadline: c.now.Add(d), ch: make(chan time.Time, 1)}
 	c.timers = append(c.timers, t)
 	return t, t.ch
@@ -287,6 +291,10 @@ type vsStream struct {
 	task     *task
 	returned bool
 	err      error
+	// ghost captured when the call was issued
+	expectTask  *task // live cacheable task for the same digest (must be joined)
+	expectQueue *platformQueue // queue the request must be routed to (nil: must be rejected)
+	graceAtCall bool
 }
 
 func (s *vsStream) Context() context.Context { return s.ctx }
@@ -326,6 +334,7 @@ func (s *vsStream) Send(op *longrunningpb.Operation) error {
 		}
 		if !s.isWait {
 			rt.Assert(!op.Done, "a fresh Execute request is never answered from an already completed task")
+			r.checkAttachment(s)
 		}
 	} else {
 		rt.Assert(op.Name == s.name, "all messages of a stream name the same operation")
@@ -369,6 +378,8 @@ type vsWorker struct {
 	lastErr    error
 	// ghost for C05/C06
 	assignedAtStep int
+	lastReturn     time.Time
+	everReturned   bool
 }
 
 const (
@@ -407,8 +418,11 @@ type vsRig struct {
 	step               int
 	maxBackground      int
 
+	opLastDetach map[string]time.Time // operation name -> when a stream last left it
+
 	// what has happened so far that can legitimately make the scheduler fail a task
 	sawWorkerTimeout bool
+	firstWorkerTimeoutAt time.Time
 	sawQueueTimeout  bool
 	sawRetryLimit    bool
 	sawNoWaiters     bool
@@ -427,8 +441,9 @@ func vsNewRig(retryCount int) *vsRig {
 	r := &vsRig{
 		actions:  map[string]*remoteexecution.Action{},
 		supplied: map[*task]*remoteexecution.ExecuteResponse{},
+		opLastDetach: map[string]time.Time{},
 	}
-	r.clock = &vsClock{now: rt.TimeFromNanos(1000 * int64(time.Second))}
+	r.clock = &vsClock{now: rt.TimeFromNanos(1000 * int64(time.Second)), rig: r}
 	r.cfg = &InMemoryBuildQueueConfiguration{
 		ExecutionUpdateInterval:              vsExecutionUpdateInterval,
 		OperationWithNoWaitersTimeout:        vsNoWaitersTimeout,
@@ -498,11 +513,73 @@ func (r *vsRig) execute(c *vsClient) *vsStream {
 		ExecutionPolicy: &remoteexecution.ExecutionPolicy{Priority: c.priority},
 	}
 	rt.Go(func() {
+		r.captureExpectations(s)
 		err := r.bq.Execute(req, s)
 		rt.Sync()
 		r.streamReturned(s, err)
 	})
 	return s
+}
+
+// captureExpectations records, right before an Execute call runs, what the
+// properties prescribe for it: the in-flight task it must join (C03) and the
+// platform queue it must be routed to (C05).
+func (r *vsRig) captureExpectations(s *vsStream) {
+	c := s.client
+	a := r.actions[c.hash]
+	s.graceAtCall = r.clock.now.Before(r.bq.platformQueueAbsenceHardFailureTime)
+	if a == nil {
+		return
+	}
+	if !a.DoNotCache {
+		// (found through the operations, not through the scheduler's own in-flight map)
+		for _, o := range r.bq.operationsNameMap {
+			t := o.task
+			if d := t.actionDigest; t.executeResponse == nil && !t.desiredState.Action.GetDoNotCache() && d.GetHashString() == c.hash && d.GetInstanceName().String() == c.instanceName {
+				s.expectTask = t
+			}
+		}
+	}
+	// longest registered prefix among the queues with equal platform properties
+	best := -1
+	for _, pq := range r.bq.platformQueues {
+		if !vsSamePlatform(pq, a) {
+			continue
+		}
+		pre := pq.platformKey.GetInstanceNamePrefix().String()
+		if pre == "" || pre == c.instanceName || (len(c.instanceName) > len(pre) && c.instanceName[:len(pre)] == pre && c.instanceName[len(pre)] == '/') {
+			if len(pre) > best {
+				best = len(pre)
+				s.expectQueue = pq
+			}
+		}
+	}
+}
+
+func vsSamePlatform(pq *platformQueue, a *remoteexecution.Action) bool {
+	k, err := platform.NewKey(pq.platformKey.GetInstanceNamePrefix(), a.Platform)
+	return err == nil && k.GetPlatformString() == pq.platformKey.GetPlatformString()
+}
+
+// checkAttachment runs when the first message of an Execute stream is sent.
+func (r *vsRig) checkAttachment(s *vsStream) {
+	if s.task == nil {
+		return
+	}
+	if s.expectTask != nil {
+		rt.Assert(s.task == s.expectTask, "an Execute request for a cacheable action that is in flight attaches to the existing task")
+		rt.Cover("dedup:attached")
+	} else {
+		for _, other := range r.streams {
+			if other != s && !other.isWait && other.task == s.task {
+				rt.Assert(false, "a request that must not be merged (do_not_cache, or nothing in flight) starts a fresh execution")
+			}
+		}
+		rt.Cover("dedup:fresh")
+	}
+	if s.expectTask == nil {
+		rt.Assert(s.expectQueue != nil && s.task.getCurrentSizeClassQueue().platformQueue == s.expectQueue, "a request is queued at the platform queue with the longest matching instance name prefix and equal platform")
+	}
 }
 
 // waitExecution re-attaches to the operation a previous stream of the client named.
@@ -520,6 +597,9 @@ func (r *vsRig) waitExecution(c *vsClient, name string) *vsStream {
 func (r *vsRig) streamReturned(s *vsStream, err error) {
 	s.returned = true
 	s.err = err
+	if s.name != "" {
+		r.opLastDetach[s.name] = r.clock.now
+	}
 	if s.ctx.err != nil {
 		rt.Cover("stream:cancelled")
 		return
@@ -530,6 +610,17 @@ func (r *vsRig) streamReturned(s *vsStream, err error) {
 	} else {
 		rt.Assert(s.msgs == 0, "a call that fails without being cancelled has not streamed anything")
 		rt.Cover("stream:rejected")
+		if !s.isWait && r.actions[s.client.hash] != nil && s.expectTask == nil {
+			rt.Assert(s.expectQueue == nil, "a request for which a matching queue exists is not rejected")
+			want := codes.FailedPrecondition
+			if s.graceAtCall {
+				want = codes.Unavailable
+				rt.Cover("reject:unavailable")
+			} else {
+				rt.Cover("reject:failed-precondition")
+			}
+			rt.Assert(status.Code(err) == want, "a request without matching queue is rejected UNAVAILABLE during the start-up grace period and FAILED_PRECONDITION afterwards")
+		}
 	}
 }
 
@@ -611,6 +702,11 @@ func (r *vsRig) sync(w *vsWorker, kind int) {
 	w.syncs++
 	ctx := w.ctx
 	rt.Go(func() {
+		var prevTask *task
+		prevRetry := 0
+		if ws := r.workerState(w); ws != nil && ws.currentTask != nil {
+			prevTask, prevRetry = ws.currentTask, ws.currentTask.retryCount
+		}
 		// ghost: which task does this completion belong to?
 		if completed != nil {
 			if ws := r.workerState(w); ws != nil && ws.currentTask != nil && ws.isRunningCorrectTask(w.desired) {
@@ -628,7 +724,18 @@ func (r *vsRig) sync(w *vsWorker, kind int) {
 		resp, err := r.bq.Synchronize(ctx, req)
 		rt.Sync()
 		r.completing = nil
+		w.lastReturn, w.everReturned = r.clock.now, true
 		r.syncReturned(w, kind, resp, err)
+		if err == nil && prevTask != nil && (kind == vsSyncIdle || kind == vsSyncIdlePreferIdle || kind == vsSyncWrongDigest) {
+			// the worker asked again for work while the scheduler thinks it runs prevTask (C06)
+			if prevRetry < r.cfg.WorkerTaskRetryCount {
+				rt.Assert(resp.DesiredState.GetExecuting() == &prevTask.desiredState && prevTask.executeResponse == nil, "a task a worker re-requests is re-issued to it until the retry limit is reached")
+				rt.Cover("retry:reissued")
+			} else {
+				rt.Assert(prevTask.executeResponse != nil && status.FromProto(prevTask.executeResponse.Status).Code() == codes.Internal, "a task re-requested more often than the retry limit fails with INTERNAL")
+				rt.Cover("retry:limit")
+			}
+		}
 	})
 }
 
@@ -733,13 +840,18 @@ func (r *vsRig) kill(name string) error {
 // advance moves time forward and lets the scheduler notice (its cleanups run
 // lazily inside whichever call next takes the lock).
 func (r *vsRig) advance(d time.Duration) {
-	if d >= vsWorkerTimeout {
-		r.sawWorkerTimeout = true
+	r.clock.advance(d)
+	for _, w := range r.workers {
+		if !w.inFlight && w.everReturned && !r.clock.now.Before(w.lastReturn.Add(vsWorkerTimeout)) {
+			if !r.sawWorkerTimeout {
+				r.sawWorkerTimeout = true
+				r.firstWorkerTimeoutAt = w.lastReturn.Add(vsWorkerTimeout)
+			}
+		}
 	}
-	if d >= vsQueueTimeout {
+	if r.sawWorkerTimeout && !r.clock.now.Before(r.firstWorkerTimeoutAt.Add(vsQueueTimeout)) {
 		r.sawQueueTimeout = true
 	}
-	r.clock.advance(d)
 }
 
 // poke takes and releases the scheduler lock at the current time, like any
